@@ -800,8 +800,9 @@ impl ShellValue {
         existing_values: &mut BTreeMap<u64, String>,
         literal_values: ArrayLiteral,
     ) {
+        // N.B. The index following the largest possible one wraps around.
         let mut new_key = if let Some((largest_index, _)) = existing_values.last_key_value() {
-            largest_index + 1
+            largest_index.wrapping_add(1)
         } else {
             0
         };
@@ -812,7 +813,7 @@ impl ShellValue {
             }
 
             existing_values.insert(new_key, value);
-            new_key += 1;
+            new_key = new_key.wrapping_add(1);
         }
     }
 
